@@ -88,9 +88,14 @@ def wrapper_operator(repo: Repo, fn: FuncNode) -> Optional[Tuple[str, str]]:
     if len(body) != 1 or not isinstance(body[0], ast.Return) or body[0].value is None:
         return None
     call = strip_cast(body[0].value)
-    if not isinstance(call, ast.Call) or not isinstance(call.func, ast.Call):
+    if not isinstance(call, ast.Call):
         return None
-    inner = call.func
+    from .model import deref
+
+    # the wrapped callable may be built once and kept in a module-level name: _lt = boolean(operator.lt)
+    inner = deref(repo.mod("evaluation"), call.func, None, fn)
+    if not isinstance(inner, ast.Call):
+        return None
     wname = dotted(inner.func)
     if wname is None or len(inner.args) != 1:
         return None
